@@ -13,7 +13,7 @@ fn main() {
     let default_cap: u64 = args
         .get(1)
         .map(|p| bigsim::props::mem_cap(p))
-        .unwrap_or(6 << 30);
+        .unwrap_or(0);
     let mem_cap = arg_val(&args, "--mem-cap")
         .and_then(|s| s.parse().ok())
         .unwrap_or(default_cap);
